@@ -2,7 +2,7 @@
 
 ENGINES = [
     {'name': 'vloop', 'path': 'vp/vloop.py', 'serves_properties': ['C03'], 'kind_free_text': 'virtual asyncio loop with explicit, classified ready-queue (order-preserving-delay scheduler seam)'},
-    {'name': 'explore', 'path': 'vp/explore.py', 'serves_properties': ['C03', 'C06', 'C07', 'C08', 'C19', 'C20'], 'kind_free_text': 'deviation-bounded stateless schedule explorer (replay prefix on fresh objects, divergence = harness error)'},
+    {'name': 'explore', 'path': 'vp/explore.py', 'serves_properties': ['C03', 'C06', 'C07', 'C08', 'C13', 'C16', 'C19', 'C20'], 'kind_free_text': 'deviation-bounded stateless schedule explorer (replay prefix on fresh objects, divergence = harness error)'},
     {'name': 'enumerate', 'path': 'vp/props/*.py', 'serves_properties': ['C01', 'C02', 'C04', 'C05', 'C10', 'C11', 'C14', 'C15', 'C18'], 'kind_free_text': 'bounded-exhaustive enumeration of inputs/histories against a Python reference model, executed on the real code'},
 ]
 
@@ -124,6 +124,21 @@ CLAIMS['C08'] = {
     'technique': 'bounded-exhaustive enumeration of mode pairs x MTU/MPS/window/FCS x SDU size sequences on two real stacks with an independent ERTM wire decoder (control fields, SAR, sequence numbers, CRC-16), deviation-bounded schedule exploration, and retransmission-timer firing enumerated before every message',
     'text': 'setup: mode pairs B/B, B/E, E/B, E/E x FCS per side x MTU/MPS/window variants x classic and LE links: both ends OPEN in the same mode or both CLOSED with the caller failed, never pending; under all schedules with <=1 (<=2) deviations. data: ERTM configurations from mtu {48,256,1000,65535} x mps {23,24,256,1024} x window {1,2,3,63} x FCS with <=1 (<=2) parameters off default, SDU sequences over {1, mps-1, mps, mps+1, 3mps, 65mps+1 (TxSeq wraps), mtu, 0} one way / both ways / echo: SDUs at each sink equal SDUs written; TxSeq advances modulo 64 without gaps; unacknowledged I-frames (by ReqSeq delivered to the sender) never exceed the window in the peer\'s Configure Request; SAR well-formed; FCS equals an independent CRC. timer: the virtual clock jumps past the retransmission time-out before every message of ERTM transfers (an acknowledgement delayed beyond the timer, nothing lost): the transfer still completes.',
     'note': 'Both ends are bumble, so REJ/SREJ/RNR and real loss are never met; only delays (incl. beyond the retransmission timer) occur.',
+}
+
+CLAIMS['C13'] = {
+    'level': 'exploration',
+    'engine': 'explore',
+    'technique': 'exhaustive enumeration of the 400-cell association-model table plus bounded deviations (configuration, user answers, wire corruption) on two real SMP stacks against an independent reference table, with deviation-bounded schedule exploration incl. delayed user answers',
+    'text': 'table: 5x5 IO capabilities x {legacy, SC} per side x MITM per side (400 cells) + OOB and JsonKeyStore cells, all-accept users: both sides conclude and agree, link encrypted, key equal at every LL_ENC_REQ (the harness asks the receiving host\'s long_term_key_provider, which the virtual controller never does), model/display/input roles equal the reference typed in from Core Vol 3 Part H Table 2.8, keys flagged authenticated only after a MITM-protected model, and on later connections in same and swapped roles the central\'s encrypt() key equals the peripheral host\'s answer. deviations (<=1 quick, <=2 thorough around symmetric cells): bonding, each key-distribution mask slot, security-request initiation, address types, every negative answer at every prompt, wrong passkey bits, 1-bit corruption of Confirm/Random/DHKey Check/Public Key per direction: never success, never stored keys, never a hang. masks: 16x16 per side. schedules: <=1 (<=2) order-preserving delays incl. the user\'s answer as its own channel on 18-20 cases.',
+    'note': 'LE only (no CTKD over BR/EDR); OOB only in base cells; a hang = quiescence + 120 virtual seconds (bumble has no SMP timeout).',
+}
+CLAIMS['C16'] = {
+    'level': 'fault_enumeration',
+    'engine': 'explore',
+    'technique': 'fault enumeration: 5 fault kinds injected before every message delivery of 28 awaited procedures on two real stacks (thorough: x one held message channel), with table-agreement, residue and reconnect-and-rerun oracles',
+    'text': '26 procedures that await the peer (GATT read/long read/write/discover/subscribe, indicate, pair legacy-JW/SC-JW/SC-passkey, LE CoC connect/disconnect/drain, HCI command, LE remote features, L2CAP parameter update, disconnect by either role, classic channel connect/disconnect, RFCOMM start+open_dlc and close, SDP search, AVDTP discover, remote name, role switch) + idle connections; every message index 0..N of the fault-free run (1092 boundaries) x {local disconnect, peer disconnect, link loss reported to both controllers, HCI transport loss on the waiting side, on the other side}: after quiescence + 120 virtual seconds every awaited call is done, host/device/controller tables agree, no per-connection registry entry remains for a dead connection, an HCI command still succeeds, and after reconnecting the same procedure succeeds.',
+    'note': 'Default schedule in quick; thorough adds one held channel from the injection point (d<=1). authenticate/encrypt, CIS/SCO and EATT bearers are not driven. A call that ends only by a built-in timeout is counted, not flagged.',
 }
 
 NOT_CLAIMED = {}
